@@ -322,7 +322,11 @@ func (c *Ctx) Finish(minDistinct int) int {
 	if c.replayFile == "" {
 		dir := filepath.Join(Root(), "evidence")
 		_ = os.MkdirAll(dir, 0o755)
-		if err := os.WriteFile(filepath.Join(dir, c.ID+".json"), b, 0o644); err != nil {
+		target := filepath.Join(dir, c.ID+".json")
+		if p := os.Getenv("VERIF_EVIDENCE_PATH"); p != "" {
+			target = p // a child stage reports to its parent through this file
+		}
+		if err := os.WriteFile(target, b, 0o644); err != nil {
 			fmt.Fprintln(os.Stderr, "cannot write evidence:", err)
 			return 2
 		}
@@ -379,4 +383,57 @@ func TmpDir(prefix string) string {
 		panic(err)
 	}
 	return d
+}
+
+// MergeChild folds the evidence file written by a child stage (same check,
+// another binary, VERIF_EVIDENCE_PATH) into this run: evaluations, distinct
+// cases, observed counters, violations (already printed by the child), known
+// findings and inconclusive cases.
+func (c *Ctx) MergeChild(path string, prefix string) error {
+	b, err := os.ReadFile(path)
+	if err != nil {
+		return err
+	}
+	var ev struct {
+		Coverage struct {
+			Evaluations  int64            `json:"evaluations"`
+			Distinct     int              `json:"distinct_nontrivial"`
+			Observed     map[string]int64 `json:"observed"`
+			Inconclusive int              `json:"inconclusive"`
+			Known        map[string]int   `json:"known_findings_hit"`
+			Samples      []interface{}    `json:"samples"`
+		} `json:"coverage"`
+		Violations int `json:"violations"`
+	}
+	if err := json.Unmarshal(b, &ev); err != nil {
+		return err
+	}
+	c.mu.Lock()
+	defer c.mu.Unlock()
+	c.evals += ev.Coverage.Evaluations
+	for i := 0; i < ev.Coverage.Distinct; i++ {
+		var k [8]byte
+		h := sha256.Sum256([]byte(fmt.Sprintf("child/%s/%d", path, i)))
+		copy(k[:], h[:])
+		c.distinct[k] = struct{}{}
+	}
+	for k, v := range ev.Coverage.Observed {
+		c.counters[prefix+k] += v
+	}
+	for i := 0; i < ev.Coverage.Inconclusive; i++ {
+		c.inconclusive = append(c.inconclusive, prefix+"child stage")
+	}
+	for k, v := range ev.Coverage.Known {
+		c.knownHits[k] += v
+	}
+	c.violations += ev.Violations
+	if ev.Violations > 0 {
+		c.violKeys[prefix+"child-stage-violations"] += ev.Violations
+	}
+	for _, smp := range ev.Coverage.Samples {
+		if len(c.samples) < c.maxSamples+2 {
+			c.samples = append(c.samples, smp)
+		}
+	}
+	return nil
 }
